@@ -8,6 +8,12 @@
 (*   Mode "gen"  : the $GENERATE matrix: ranges x offset x width x base        *)
 (*   Mode "tree" : include trees with directories and decoys: every top-level  *)
 (*                 file location x every sequence of <= N tree shapes          *)
+(*   Mode "ofile": cases read from cases.ndjson, each {c | cfg, q | lines       *)
+(*                 [, otext]}: configuration (index or in full), lines (shape  *)
+(*                 indices or in full) and, optionally, the INITIAL ORIGIN AS  *)
+(*                 TEXT -- the origin string handed to the parser:             *)
+(*                 Zone!OriginOfText says whether the parser starts in the     *)
+(*                 error state (C07)                                           *)
 EXTENDS ZoneShapes, GenBase
 
 CONSTANTS Mode, N, Shard, NShards
@@ -17,7 +23,7 @@ VARIABLES v
 RECURSIVE SetAsSeq(_)
 SetAsSeq(S) == IF S = {} THEN <<>> ELSE LET x == CHOOSE y \in S : TRUE IN <<x>> \o SetAsSeq(S \ {x})
 
-Cases == IF Mode \in {"idx", "file"} THEN ndJsonDeserialize("cases.ndjson") ELSE <<>>
+Cases == IF Mode \in {"idx", "file", "ofile"} THEN ndJsonDeserialize("cases.ndjson") ELSE <<>>
 
 InShard(c, q) == (c + SumSeq([i \in 1..Len(q) |-> (2 * i + 1) * q[i]])) % NShards = Shard
 
@@ -54,10 +60,18 @@ ZoneVector(c, ls, given, givenfs) ==
   [kind |-> "zone", cfg |-> c, lines |-> ls, outs |-> SetAsSeq(Denotations(c, ls)),
    explicit |-> Explicit(c, ls), minimal |-> Minimal(c, ls), given |-> given, givenfs |-> givenfs]
 
+\* the configuration of the vector carries the origin the specification reads from the text (none if it is not a name);
+\* otext / ost travel with it: the harness hands otext to the parser as it is
+OriginVector(c, ot, ls) ==
+  LET o == OriginOfText(ot)  c2 == [c EXCEPT !.origin = o.origin] IN
+  [kind |-> "zone", cfg |-> c2, lines |-> ls, outs |-> SetAsSeq(DenotationsO(c, ot, ls)),
+   explicit |-> IF o.st = "ok" THEN Explicit(c2, ls) ELSE <<>>, minimal |-> IF o.st = "ok" THEN Minimal(c2, ls) ELSE <<>>,
+   given |-> <<>>, givenfs |-> <<>>, otext |-> ot, ost |-> o.st]
+
 Init ==
   /\ ZInit(CfgOf(0)) /\ pol = [io |-> FALSE, it |-> FALSE, go |-> FALSE, gt |-> FALSE]
   /\ \/ Mode = "seq" /\ \E c \in 0..(NCfg - 1), q \in UNION { [1..k -> 1..NShapes] : k \in 0..N } : v = <<c>> \o q /\ InShard(c, q)
-     \/ Mode \in {"idx", "file"} /\ v \in 1..Len(Cases)
+     \/ Mode \in {"idx", "file", "ofile"} /\ v \in 1..Len(Cases)
      \/ Mode = "tree" /\ \E c \in 1..Len(TreeTop), q \in UNION { [1..k -> 1..Len(TreeShapes)] : k \in 1..N } : v = <<c>> \o q
      \/ Mode = "gen" /\ \E a \in 1..Len(Ranges), b \in 1..Len(Offs), c \in 1..Len(Widths), d \in 1..Len(Bases) :
                           v = <<a, b, c, d>> /\ ((a + b + c + d) % NShards = Shard)
@@ -68,6 +82,10 @@ Out ==
     [] Mode = "idx"  -> Emit(ZoneVector(CfgOf(Cases[v].c), [i \in 1..Len(Cases[v].q) |-> Shapes[Cases[v].q[i]]], <<>>, <<>>))
     [] Mode = "file" -> Emit(ZoneVector(Cases[v].cfg, Cases[v].lines, IF "text" \in DOMAIN Cases[v] THEN Cases[v].text ELSE <<>>,
                                         IF "fstext" \in DOMAIN Cases[v] THEN Cases[v].fstext ELSE <<>>))
+    [] Mode = "ofile" -> LET cs == Cases[v]
+                             c  == IF "cfg" \in DOMAIN cs THEN cs.cfg ELSE CfgOf(cs.c)
+                             ls == IF "lines" \in DOMAIN cs THEN cs.lines ELSE [i \in 1..Len(cs.q) |-> Shapes[cs.q[i]]]
+                         IN IF "otext" \in DOMAIN cs THEN Emit(OriginVector(c, cs.otext, ls)) ELSE Emit(ZoneVector(c, ls, <<>>, <<>>))
     [] Mode = "tree" -> Emit(ZoneVector(TreeCfg(v[1]), [i \in 1..(Len(v) - 1) |-> TreeShapes[v[i + 1]]], <<>>, <<>>))
     [] Mode = "gen"  -> Emit(GenVector(GenLineOf(v)))
 =============================================================================
